@@ -74,9 +74,9 @@ def run(chk):
         chk.tool_error("harness build failed", out)
     env = {"VERIF_SEED": str(chk.seed)}
     total = 0
-    runs = [("8", 40, 0), ("2", 40, 0), ("1", 20, 0), ("none", 20, 0), ("1024", 10, 0), ("8", 2, 1)]
+    runs = [("8", 40, 0), ("2", 40, 0), ("1", 20, 0), ("none", 20, 0), ("1024", 10, 0), ("8", 2, 1), ("1024", 2, 2)]
     if thorough:
-        runs = [(b, n * 5, f) for b, n, f in runs] + [("3", 100, 0), ("64", 50, 0), ("none", 3, 1)]
+        runs = [(b, n * (5 if f < 2 else 2), f) for b, n, f in runs] + [("3", 100, 0), ("64", 50, 0), ("none", 3, 1), ("none", 2, 2)]
     for buf, n, fat in runs:
         tr = chk.path("rec_%s_%d.ndjson" % (buf, fat))
         rc, out, s1 = vlib.harness("c11", ["record", "--buffer", buf, "--runs", n, "--fat", fat, "--out", tr], env=env, timeout=900)
@@ -89,10 +89,10 @@ def run(chk):
             kw.update(Limit=int(buf))
         tcfg = cfg("trace_%s" % buf, spec="TraceSpec", inv=TINV, post=True, **kw)
         total += vlib.validate_concat(chk, SPEC, "TraceTcpExporter", tcfg, tr,
-                                      "exporter runs buffer=%s%s" % (buf, " (slow clients, 16 KiB frames)" if fat else ""), timeout=1800)
+                                      "exporter runs buffer=%s%s" % (buf, {0: "", 1: " (slow clients, 16 KiB frames)", 2: " (6 MiB frames, each emitted alone)"}[fat]), timeout=1800)
         chk.cov["distinct_nontrivial"] += s1["distinct"]
         chk.notes["record_%s_%d" % (buf, fat)] = s1
-        if fat and s1.get("would_block_writes", 0) == 0:
+        if fat == 1 and s1.get("would_block_writes", 0) == 0:
             chk.log("note: the slow-client scenario did not reach WouldBlock in this run")
     # wake-up stress: many windows of closely spaced emission pairs, each screened by its own 10 s delivery deadline; the
     # first window and every window that missed the deadline are validated by TLC (a lost wake-up leaves the emission in
